@@ -3,7 +3,12 @@ with paths relative to the current directory; prints JSON {ok, text, anon_before
 import contextlib, io, json, os, sys, warnings
 warnings.filterwarnings("ignore")
 sys.path.insert(0, os.environ.get("PEPPER_REPO", "/repo"))
+_job0 = json.loads(sys.argv[1])
+_home0 = os.getcwd()
+if _job0.get("import_from"):
+    os.chdir(_job0["import_from"])      # the package is imported while the process is in ANOTHER project's directory (a batch driver)
 from peppercompiler import compiler as pc
+os.chdir(_home0)
 from peppercompiler import DNA_classes
 
 def comp(entry, out, save, synth, includes, fixed=None, args=()):
